@@ -31,12 +31,14 @@ def load_contracts():
     return K.REGISTRY
 
 
-def contracts_for(prop):
+def contracts_for(prop, tier="quick"):
     reg = load_contracts()
     out = []
     for q, lst in reg.items():
         for k in lst:
             if prop in k.props and getattr(k, "verify_body", True):
+                if getattr(k, "thorough_only", False) and tier != "thorough":
+                    continue        # larger enumerated sizes: thorough tier only
                 out.append(k)
     return out
 
@@ -208,7 +210,9 @@ def run_replay(witness, tree, timeout=300):
     try:
         p = subprocess.run(["/venv/bin/python", os.path.join(ROOT, "replay", "drivers.py"), witness["driver"]],
                            input=json.dumps(witness.get("inputs", {})), capture_output=True, text=True, timeout=timeout,
-                           env=dict(os.environ, PYTHONPATH=os.path.join(tree, "src"), MPLBACKEND="Agg"))
+                           env=dict(os.environ, PYTHONPATH=os.path.join(tree, "src"), MPLBACKEND="Agg", TQDM_DISABLE="1",
+                                    # native drivers must not starve the solver processes: two BLAS threads each
+                                    OMP_NUM_THREADS="2", OPENBLAS_NUM_THREADS="2", MKL_NUM_THREADS="2"))
         last = p.stdout.strip().splitlines()[-1] if p.stdout.strip() else ""
         try:
             return json.loads(last)
@@ -252,7 +256,7 @@ def main(argv=None):
     prop = a.prop
     tier = "thorough" if a.tier == "thorough" else "quick"
     t0 = time.time()
-    ks = contracts_for(prop)
+    ks = contracts_for(prop, tier)
     if not ks:
         print(f"checker error: no contracts registered for {prop}")
         return 3
@@ -384,6 +388,8 @@ def main(argv=None):
                                "obligations": len(r["obligations"]), "seconds": r["seconds"], "loops": r["loops"],
                                "error": r["error"]} for r in results],
                 "by_backend": by_backend,
+                "slowest_obligations": [{"id": o["id"], "path": o["path"], "seconds": o["seconds"], "backend": o["backend"]}
+                                        for _, o in sorted(all_obl, key=lambda ro: -ro[1]["seconds"])[:5] if o["seconds"] > 1.0],
                 "kinds": _count(o["kind"] for _, o in all_obl),
                 "known_failing": sorted(known_ids),
                 "known_failing_obligations": n_known_obl,
